@@ -639,18 +639,71 @@ def proc_cpu_and_states(pid):
     return total, states
 
 
-def proc_idle(pid, interval=2.0, samples=4):
-    """True if during `interval` seconds the process consumed no CPU time at all and each of its threads was seen
-    sleeping (state S) in every sample: it is waiting for input, not slow, not starved of CPU (that would be R/D)."""
-    first = proc_cpu_and_states(pid)
-    if first is None:
+def group_pids(pgid):
+    """Processes whose process group is `pgid` (a daemon started by `Daemon` leads its own group; its forked
+    co-processes stay in it)."""
+    out = []
+    for d in os.listdir("/proc"):
+        if d.isdigit():
+            try:
+                with open("/proc/%s/stat" % d) as f:
+                    st = f.read()
+                if int(st[st.rindex(")") + 2:].split()[2]) == pgid:
+                    out.append(int(d))
+            except (OSError, ValueError, IndexError):
+                pass
+    return out
+
+
+def proc_idle(pid, interval=6.0, samples=12):
+    """True if during `interval` seconds neither the process nor any process of its group (co-processes) consumed any
+    CPU time and every thread of all of them was sleeping (state S) in every sample: they wait for input; they are
+    not slow and not starved of CPU (a starved thread is runnable, R; one stuck in the kernel is D)."""
+    def snap():
+        tot, states, n = 0, "", 0
+        for p in sorted(set([pid] + group_pids(pid))):
+            c = proc_cpu_and_states(p)
+            if c is not None:
+                tot += c[0]
+                states += c[1]
+                n += 1
+        return tot, states, n
+    first = snap()
+    if first[2] == 0 or proc_cpu_and_states(pid) is None:
         return False
     for _ in range(samples):
         time.sleep(interval / samples)
-        cur = proc_cpu_and_states(pid)
-        if cur is None or cur[0] != first[0] or set(cur[1]) - {"S"} or set(first[1]) - {"S"}:
+        cur = snap()
+        if proc_cpu_and_states(pid) is None or cur[0] != first[0] or cur[2] != first[2] \
+                or set(cur[1]) - {"S"} or set(first[1]) - {"S"}:
             return False
     return True
+
+
+def proc_report(pid):
+    """Where the threads of the process (and of its group) are waiting - diagnostic text for a stuck-session report."""
+    lines = []
+    for p in sorted(set([pid] + group_pids(pid))):
+        try:
+            with open("/proc/%d/cmdline" % p, "rb") as f:
+                cmd = f.read().replace(b"\0", b" ").decode("utf-8", "replace").strip()
+            lines.append("pid %d: %s (open fds: %d)" % (p, cmd[-120:], len(os.listdir("/proc/%d/fd" % p))))
+            for t in sorted(os.listdir("/proc/%d/task" % p)):
+                w = st = ""
+                try:
+                    with open("/proc/%d/task/%s/wchan" % (p, t)) as f:
+                        w = f.read().strip()
+                    with open("/proc/%d/task/%s/stat" % (p, t)) as f:
+                        x = f.read()
+                    st = x[x.rindex(")") + 2]
+                    with open("/proc/%d/task/%s/syscall" % (p, t)) as f:
+                        w += " syscall=" + " ".join(f.read().split()[:2])
+                except OSError:
+                    pass
+                lines.append("   thread %s state=%s wchan=%s" % (t, st, w))
+        except OSError:
+            pass
+    return "\n".join(lines)
 
 
 class Daemon:
